@@ -1183,3 +1183,17 @@ Definition run (c : tr) : tr :=
       end
   | _ => ebad
   end.
+
+(* The receiver a steers clear of the open findings whose flag is on in q (the behaviour of the
+   code as it is): no frozen part when is_compatible ignores a frozen receiver, no List with a
+   positive min_size when min_size is ignored, no Enum when an Enum rule is loose. *)
+Fixpoint avoids (q : quirks) (a : spec) : bool :=
+  (negb (q_frozen_recv q) || negb (frozen (mods_of a))) &&
+  match a with
+  | SEnum _ _ => negb (q_enum_shortcut q) && negb (q_enum_subset q)
+  | SList e mn _ _ => (negb (q_list_min q) || (mn <=? 0)) && avoids q e
+  | STuple es _ _ _ => forallb (avoids q) es
+  | SDict (Some fs) _ => forallb (fun kf => avoids q (snd kf)) fs
+  | SUnion cs _ => forallb (avoids q) cs
+  | _ => true
+  end.
